@@ -130,7 +130,21 @@ func genSealRoundtrip(h *H) {
 
 func init() {
 	campaigns["C01"] = campaign{
-		rule: "cases: (version, named/anonymous sender, 1..6 recipients (up to 40 in thorough) with every visible/hidden pattern for n<=3, plaintext split into Write pieces or one-shot, pinned randomness); lengths 0,1,2,31..33,255..257,1000, random, and k MiB-1/k MiB/k MiB+1; each case compares the emitted bytes and the randomness consumed with the extracted model, then opens the message as every recipient (Open and the streaming form with a random buffer size) checking plaintext, sender, receiver key and hidden flag, and as a stranger (no-decryption-key, no plaintext). Distinct by (op,args) hash.",
-		gen:  genSealRoundtrip,
+		rule: "cases: (version, named/anonymous sender, 1..6 recipients (up to 40 in thorough) with every visible/hidden pattern for n<=3, plaintext split into Write pieces or one-shot, pinned randomness); lengths 0,1,2,31..33,255..257,1000, random, and k MiB-1/k MiB/k MiB+1; each case compares the emitted bytes and the randomness consumed with the extracted model, then opens the message as every recipient (Open and the streaming form with a random buffer size) checking plaintext, sender, receiver key and hidden flag, and as a stranger (no-decryption-key, no plaintext). plus Seal to 300 (thorough: also 65535, 65536, 65537) distinct recipients opened by the middle one. Distinct by (op,args) hash.",
+		gen: func(h *H) {
+			genSealRoundtrip(h)
+			// the recipient-list size classes of MessagePack (array16 up to 65535 entries, array32 beyond):
+			// 300 recipients always; both sides of the boundary in the thorough tier only (one Diffie-Hellman per
+			// recipient: minutes on a loaded machine)
+			ns := []int{300}
+			if h.tier == "thorough" {
+				ns = []int{300, 65535, 65536, 65537}
+			}
+			for i, n := range ns {
+				h.tag("rcpts:many")
+				h.Run(Case{Op: "seal_many", A: map[string]string{"n": strconv.Itoa(n), "v": []string{"2.0", "1.0"}[i%2], "rsk": hx(h.randBoxSk()),
+					"sender": hx(h.randBoxSk()), "seed": hx(h.rng.Bytes(28))}})
+			}
+		},
 	}
 }
